@@ -242,7 +242,7 @@ pub fn units(thorough: bool) -> Vec<Unit> {
     let instant: Vec<PushAnswer> = vec![Status(200), Status(204), Status(400), Status(500), Status(301), Status(100), ConnError];
     let slow: Vec<PushAnswer> = vec![Delay(12_000, 200), Status(200), Status(503), Delay(3_000, 200), Delay(3_000, 500)];
     let mut v = vec![
-        explore_unit("fault/1msg", format!("1 message, answers from {:?}, all sequences over {} rounds", instant, if thorough { 6 } else { 4 }), Bounds::new(0), cfg.clone(), scenario("1msg", 1, if thorough { 6 } else { 4 }, instant.clone(), None, true)),
+        explore_unit("fault/1msg", format!("1 message, answers from {:?}, all sequences over {} rounds", instant, if thorough { 7 } else { 4 }), Bounds::new(0), cfg.clone(), scenario("1msg", 1, if thorough { 7 } else { 4 }, instant.clone(), None, true)),
         explore_unit("fault/2msg", format!("2 messages, same answers, all sequences over {} rounds", if thorough { 4 } else { 3 }), Bounds::new(0), cfg.clone(), scenario("2msg", 2, if thorough { 4 } else { 3 }, instant.clone(), None, true)),
         explore_unit("fault/slow-endpoint", format!("1 message, answers from {:?} (no answer within the 10 s deadline, late answers), 14 rounds", slow), Bounds::new(0), cfg.clone(), scenario("slow", 1, 14, slow.clone(), None, true)),
         explore_unit("fault/delete", "2 messages, failing / slow answers, DeleteSubscription after the first or second round: no POST afterwards", Bounds::new(0), cfg.clone(), scenario("delete", 2, 4, vec![Status(500), Delay(2_500, 500), Status(200)], Some(0), true)),
